@@ -14,6 +14,7 @@ from pyvc.verify import check_real_hash, real_function
 
 def run_contract_enum(name, contract, arg_sets, scope, max_report=5) -> BoundedResult:
     br = BoundedResult(name, scope, exhaustive=True, kind="B-enum(contract)")
+    br.function = contract.qualname
     fsrc = source.get_function(contract.qualname)
     check_real_hash(fsrc)
     fn, cls = real_function(fsrc)
